@@ -10,8 +10,15 @@
                field, coordinates as integer nanodegrees, tolerance flag), or Err() <> nil,
                or Header() <> the header description
             3  canonical form of the tree fed to the decoder <> encode_block/encode_header of the
-               description (the inputs are the theorems' inputs)
-            4  the description is outside valid_block/valid_header (generator defect)
+               description (the inputs are the theorems' inputs).  Canonical form = canon_block, the
+               hypothesis of field_order_irrelevant; failing that, mcanon_block (chunks of a split
+               packed column concatenated: the format's equality; such inputs belong to the known
+               finding "packed-column-split" and must fail judgement 2 under that class only)
+            4  the description is outside format_valid_block/valid_header (generator defect), or the
+               model answers E_WIRE on a tree (the tree is not well-typed, see Pbf/Tree.v: outside
+               the domain on which the model speaks for the implementation).
+               format_valid_block = valid_block + plain Node items (known finding
+               "plain-node-group": valid input, the decoder answers with an error)
             0  case does not parse *)
 From Coq Require Import ZArith List Bool.
 From Verif Require Import Base.Int64 Base.Wire Pbf.Tree Pbf.Model Pbf.Spec Pbf.Header Pbf.CheckLib.
@@ -62,8 +69,10 @@ Definition check_case (t : toks) : list Z :=
   | Some (h, bs, os) =>
       let trees := map snd bs in
       let expected := flat_map (fun b => elements (fst b)) bs in
-      let j3 := forallb (fun b => msg_eqb (canon_block (snd b)) (encode_block (fst b))) bs in
-      let j4 := forallb (fun b => valid_block (fst b)) bs in
+      let j3 := forallb (fun b => msg_eqb (canon_block (snd b)) (encode_block (fst b))
+                                   || msg_eqb (mcanon_block (snd b)) (encode_block (fst b))) bs in
+      let j4 := forallb (fun b => format_valid_block (fst b)) bs
+                && match scan_file cfg_all 1 trees with Err c => negb (c =? E_WIRE) | _ => true end in
       dedup ((match h with Some hc => header_codes hc | None => [] end)
              ++ flat_map (obs_codes trees expected) os
              ++ code_if j3 3 ++ code_if j4 4
